@@ -27,9 +27,23 @@
   `{65530,25}` returned true with Pass.Offs wrapped to 0 (the "absent" marker).
   No theorem says that a relocated URI is again well formed for a SECOND relocation (the relocation oracle relocates
   twice; seeded change C11d is caught that way).
+  SEQUENCES of operations (`Sipsp.Proofs.UriSeq`): `seq_parsed_wf` — every URI ParseURI accepts satisfies a structural
+  invariant `USWf` (scheme non-empty, present components in buffer order behind it, the last one ending below 65,536, tel:
+  shape); `wf_truncate`, `wf_adjust`: Truncate and AdjustOffs (accepted or refused, any 16-bit span) preserve it and never
+  panic; `seq_adjust_eq`: AdjustOffs on such a URI accepts a span EXACTLY when its end does not wrap and its length is at
+  least the extent of the last PRESENT component, the result is then the relocated URI, otherwise nothing changes;
+  `uri_ops_never_panic`, `seq_ops_never_panic`, `seq_ops_every_step`: ANY finite sequence of Truncate / AdjustOffs / Long /
+  Short / Flat calls on a parsed URI never panics and every theorem above applies at every step; `seq_adjust_adjust`,
+  `seq_adjust_back`, `seq_parsed_relocate_twice`: relocations compose and relocating back restores the URI exactly;
+  `seq_truncate_adjust`, `seq_truncate_len`, `seq_parsed_truncate_adjust`: after Truncate the threshold is the extent up to the
+  port (not the original length); `seq_adjust_views`, `seq_long_eq`, `seq_short_eq`, `seq_short_prefix_long`,
+  `seq_truncate_long`: the views commute with relocation, Long after Truncate = Short. Observed (true of the code, pinned):
+  AdjustOffs measures up to the last PRESENT component, Long / Flat up to the last NON-EMPTY one — for `sip:h;` (6 bytes)
+  Long() is `sip:h` and a 5-byte span is refused.
 -/
 import Sipsp.Model.URI
 import Sipsp.Proofs.UriLink
+import Sipsp.Proofs.UriSeq
 
 namespace Sipsp.C18
 open Sipsp
@@ -223,5 +237,95 @@ theorem parsed_wf (b : Buf) (hfit : b.size ≤ 65535) (hacc : (parseURI b {}).1 
 /-- a span that ends past the 16-bit range (its end offset wraps) is refused, nothing is changed, no panic
     (library repair 1a8b02b; before it the code panicked after rewriting the offsets, or wrapped them) -/
 theorem refuse_wrapping_span : type_of% @Sipsp.ul_adjust_wrap_refused := @Sipsp.ul_adjust_wrap_refused
+
+/-! ### SEQUENCES of operations on one parsed URI: closure of the invariant under Truncate / AdjustOffs / views, composition of relocations, Truncate then AdjustOffs, views commute with relocation (proved in `Sipsp.Proofs.UriSeq`) -/
+
+/-- EXPORT C18 — **(1) the invariant implies the well-formedness hypothesis of the AdjustOffs theorems** (`ULWF`, field for field
+    `C18.WF`), with `L` = the length AdjustOffs computes -/
+theorem wf_ulwf : type_of% @Sipsp.USWf.ulwf := @Sipsp.USWf.ulwf
+
+/-- EXPORT C18 — **AdjustOffs on a URI that satisfies the invariant, for EVERY span**: it never panics; the span is accepted
+    exactly when its end stays inside the 16-bit range and its length is at least `ulLen u` (the end of the last
+    PRESENT component, relative to the scheme); then the result is the URI moved to `np.Offs`; otherwise nothing is
+    changed -/
+theorem seq_adjust_eq : type_of% @Sipsp.us_adjust_eq := @Sipsp.us_adjust_eq
+
+/-- EXPORT C18 — **(1) closure under AdjustOffs, accepted or refused**: whatever the span, the call does not panic and the URI it
+    leaves behind satisfies the invariant, with the same computed length -/
+theorem wf_adjust : type_of% @Sipsp.USWf.adjust := @Sipsp.USWf.adjust
+
+/-- EXPORT C18 — **(1) closure under Truncate**; the computed length can only shrink -/
+theorem wf_truncate : type_of% @Sipsp.USWf.truncate := @Sipsp.USWf.truncate
+
+/-- EXPORT C18 — **(4) Long() in closed form**: no panic; it starts at the scheme and ends where the last non-empty component ends -/
+theorem seq_long_eq : type_of% @Sipsp.us_long_eq := @Sipsp.us_long_eq
+
+/-- EXPORT C18 — **(4) Short() in closed form**: no panic; it starts at the scheme and ends at the port (if not empty, else at the host) -/
+theorem seq_short_eq : type_of% @Sipsp.us_short_eq := @Sipsp.us_short_eq
+
+/-- EXPORT C18 — (4) the short view is a prefix of the long view: same start, not longer; neither panics -/
+theorem seq_short_prefix_long : type_of% @Sipsp.us_short_prefix_long := @Sipsp.us_short_prefix_long
+
+/-- EXPORT C18 — **(4) Long after Truncate = Short**, for every URI that satisfies the invariant (also tel: with a password) -/
+theorem seq_truncate_long : type_of% @Sipsp.us_truncate_long := @Sipsp.us_truncate_long
+
+/-- EXPORT C18 — **(2) AdjustOffs to `np1` (accepted), then to `np2`**: the second call is accepted exactly when `np2` would have been
+    accepted directly; then the result (every component, the flags) is that of the direct call; otherwise the second
+    call changes nothing -/
+theorem seq_adjust_adjust : type_of% @Sipsp.us_adjust_adjust := @Sipsp.us_adjust_adjust
+
+/-- EXPORT C18 — **(2) relocating back onto the original position restores the original URI exactly** -/
+theorem seq_adjust_back : type_of% @Sipsp.us_adjust_back := @Sipsp.us_adjust_back
+
+/-- EXPORT C18 — **(3) after Truncate the span only has to hold what is left**: AdjustOffs on the truncated URI never panics and
+    accepts a span (inside the 16-bit range) exactly when its length is at least `ulLen u.truncate` — the end of the
+    last PRESENT component among scheme … port, NOT the original length — and then the result is the truncated URI
+    moved; its Long() and Short() are the Short() of the original, moved -/
+theorem seq_truncate_adjust : type_of% @Sipsp.us_truncate_adjust := @Sipsp.us_truncate_adjust
+
+/-- EXPORT C18 — (3) the threshold after Truncate and the views: Short() (= Long() after Truncate) is never longer than the
+    threshold, and they are EQUAL unless the port is present but empty (`sip:h:;x`: threshold 6, Short() = 5) -/
+theorem seq_truncate_len : type_of% @Sipsp.us_truncate_len := @Sipsp.us_truncate_len
+
+/-- EXPORT C18 — **(4) the views commute with an accepted AdjustOffs**: Long / Short of the relocated URI are the Long /
+    Short of the original with the new start (same length, no panic); Truncate after AdjustOffs = AdjustOffs (same
+    span, also accepted) after Truncate; and when the buffer `b2` holds at `np.Offs` the bytes that `b` holds at the
+    old position, Flat and `Get` on every one of the seven fields return in `b2` what they return for the original
+    in `b`, without panic -/
+theorem seq_adjust_views : type_of% @Sipsp.us_adjust_views := @Sipsp.us_adjust_views
+
+/-- EXPORT C18 — **(1) ANY finite sequence of Truncate / AdjustOffs (any 16-bit spans, accepted or refused) / Long / Short / Flat
+    calls on a URI that satisfies the invariant never panics**, and the URI at the end satisfies the invariant -/
+theorem seq_ops_never_panic : type_of% @Sipsp.us_ops_never_panic := @Sipsp.us_ops_never_panic
+
+/-- EXPORT C18 — **(1) … and at EVERY step** (after the first `n` calls, for every `n`): no call has panicked, the invariant holds, so
+    the hypotheses of the C18 theorems about AdjustOffs (`ULWF u (ulLen u)`, field for field `C18.WF`, and
+    `ulSum u ≤ ulLen u`) hold for the structure as it is then, and Long / Short do not panic on it -/
+theorem seq_ops_every_step : type_of% @Sipsp.us_ops_every_step := @Sipsp.us_ops_every_step
+
+/-- EXPORT C18 — **(1) what ParseURI establishes**: every URI accepted by ParseURI (sip:, sips:, tel:; input of at most
+    65,535 bytes) satisfies the invariant `USWf`, its scheme is at offset 0 and the length AdjustOffs computes is
+    len(b) -/
+theorem seq_parsed_wf : type_of% @Sipsp.us_parsed_wf := @Sipsp.us_parsed_wf
+
+/-- EXPORT C18 — **(1) ANY finite sequence of Truncate / AdjustOffs (to any 16-bit spans, accepted or refused) / Long /
+    Short / Flat calls on a parsed URI never panics, and every theorem of C18 applies at every step**: for every
+    accepted input `b` (≤ 65,535 bytes), every list of calls whose only obligations are those of `usPre` (the span is
+    a pair of 16-bit numbers; the buffer given to Flat holds the span Long() reports) and every `n`: after the first
+    `n` calls nothing has panicked, the structure satisfies the invariant, hence `ULWF` (= `C18.WF`) with its own
+    computed length and `ulSum ≤ ulLen` — the hypotheses of `adjust_moves` / `adjust_refused` — and the computed
+    length never exceeds len(b) -/
+theorem uri_ops_never_panic : type_of% @Sipsp.uri_ops_never_panic := @Sipsp.uri_ops_never_panic
+
+/-- EXPORT C18 — **(2) parse, relocate, relocate again**: for an accepted input and two spans that hold it (inside the
+    16-bit range), AdjustOffs to the first and then to the second gives exactly what AdjustOffs to the second gives
+    directly (so `C18.relocate_parsed` describes the result: every component reads the original bytes), and going
+    back to a span at offset 0 gives back the parsed URI itself -/
+theorem seq_parsed_relocate_twice : type_of% @Sipsp.us_parsed_relocate_twice := @Sipsp.us_parsed_relocate_twice
+
+/-- EXPORT C18 — **(3) parse, Truncate, relocate**: the truncated URI is accepted by exactly the spans (inside the 16-bit
+    range) of at least `ulLen u.truncate` bytes — at most len(b), at least the length of Short(), equal to it unless
+    the port is present but empty — and Long / Short of the result are the Short of the parsed URI at the new offset -/
+theorem seq_parsed_truncate_adjust : type_of% @Sipsp.us_parsed_truncate_adjust := @Sipsp.us_parsed_truncate_adjust
 
 end Sipsp.C18
